@@ -41,7 +41,7 @@ InvClause == IF ~Fresh' THEN "inv:Fresh" ELSE IF ~SizeBound' THEN "inv:SizeBound
 Report(ok, i, clause, fnd) == PrintT(ToJson([t |-> Traces[tr].id, ok |-> ok, i |-> i, clause |-> clause, findings |-> fnd]))
 Finish(c0) ==   \* bookkeeping after one consumed event; c0 = failing comparison clause or ""
   LET c == IF c0 # "" THEN c0 ELSE InvClause
-      f == IF PutServed' THEN findings ELSE findings \cup {"PutServed"}
+      f == IF PutServed' /\ PutFileServed' THEN findings ELSE findings \cup {"PutServed"}
   IN /\ l' = l + 1 /\ findings' = f
      /\ verdict' = (IF c # "" THEN "fail" ELSE IF l + 1 > Len(Ev) THEN "ok" ELSE "run")
      /\ (c # "" => Report(FALSE, l, c, f))
@@ -57,6 +57,7 @@ TStep ==
      \/ /\ e.ev = "has" /\ Has(e.u) /\ Finish(HasClause(e))
      \/ /\ e.ev = "put" /\ Put(e.u, TRUE) /\ Finish(PutClause(e))
      \/ /\ e.ev = "puttmpl" /\ Put(e.u, FALSE) /\ Finish(PutClause(e))
+     \/ /\ e.ev = "putfile" /\ PutFile(e.u, e.d, e.v) /\ Finish(PutClause(e))
 \* an event whose spec action is not enabled at all (e.g. delete of a file the model does not have)
 TStuck ==
   /\ verdict = "run" /\ l <= Len(Ev) /\ ~ENABLED TStep
